@@ -3,8 +3,9 @@
 1. TLC checks the implementation-shaped model Dispatcher (unbounded MPMC channel, worker loops in
    concurrent / sequential mode, dispatch / dispatch_blocking, join as its separate steps, worker
    faults) on small constants: the property's invariants in every state, liveness on the fair spec,
-   and the one recorded deviation (join parks its joiner on the shared blocking pool) as an
-   expected liveness counterexample of its own config.
+   and the one deviation found (join parked its joiner on the shared blocking pool; repaired in
+   /repo d1f1c64, kept in the model as a switch) as an expected liveness counterexample of its own
+   config.
 2. record_dispatcher runs seeded random programs on the REAL Dispatcher; closures and callers log
    the events.  The property's predicates are evaluated directly on every recorded history
    (contract oracle, this module) and the concatenated histories are validated by TLC against
@@ -443,12 +444,14 @@ def model_checking(tier, box):
         try:
             for cfg in cfgs:
                 if cfg == "POOL1":
-                    # the named deviation must be what the model predicts: with a one-slot pool join never returns
-                    r = tlc_retry("Dispatcher", "MC_Dispatcher_pool1.cfg", timeout=600, workers=2, coverage=False)
+                    # the repaired deviation (JoinerOnPool = TRUE, pinned behaviour) must still be what the
+                    # model predicts: with a one-slot pool join never returns
+                    r = tlc_retry("Dispatcher", "MC_Dispatcher_pool1.cfg", timeout=600, workers=2)
                     if "Temporal property JoinReturns was violated" not in r.out:
                         raise vlib.ToolError("Dispatcher pool1 control: expected a JoinReturns counterexample, "
                                              "got %s %s" % (r.violated, r.error))
                     results[cfg] = "JoinReturns violated as predicted (%d states)" % r.distinct
+                    results["POOL1_cov"] = r.coverage
                 else:
                     r = tlc_retry("Dispatcher", cfg, timeout=2700, workers=2)
                     vlib.require_model_ok(r, "Dispatcher/" + cfg)
@@ -464,7 +467,7 @@ def model_checking(tier, box):
     if "error" in results:
         box["error"] = results["error"]
         return
-    cov = {}
+    cov = dict(results.get("POOL1_cov", {}))     # JoinSpawnOnPool only exists in the pinned behaviour
     out = []
     for c in chains:
         for cfg in c:
